@@ -127,6 +127,15 @@ pub fn run_isolated_env(cli: &Cli, rep: &Report, check: &'static (dyn IsoCheck +
 
 /// Entry point used by both parent and children.
 pub fn run_isolated(cli: &Cli, rep: &Report, check: &'static (dyn IsoCheck + 'static)) {
+    // debugging aid: VERIF_ISO_DESC=12,99 prints the descriptors of those case indices and exits
+    if let Ok(list) = std::env::var("VERIF_ISO_DESC") {
+        for i in list.split(',').filter_map(|x| x.trim().parse::<usize>().ok()) {
+            if i < check.n_cases() {
+                println!("{i} {}", check.desc(i));
+            }
+        }
+        std::process::exit(0);
+    }
     if let Some((k, kk, resume, dir)) = child_args(cli) {
         child_main(cli, check, k, kk, resume, &dir);
         std::process::exit(0);
